@@ -409,23 +409,36 @@ def flag_rows(facts):
                 return is_mask(x["c"])
             return x.get("k") == "Bin" and x.get("op") == "&" and (("v" in strip(x["l"]) and strip_all(x["r"]).get("k") != "Bin") or ("v" in strip(x["r"]) and strip_all(x["l"]).get("k") != "Bin"))
 
+        in_decl = set()
+        for var in cands:
+            walk(var["init"], lambda x: in_decl.add(id(x)))
+        seen_inline = set()
+
         def vc(n):
-            # a flag tested in place (`if (bytes[FLAGS] & MASK)`) is the same decoding as one that is given a name first
-            if n.get("k") == "If" and n.get("c") is not None:
-                terms = [t for t in _split_nodes(n["c"]) if is_mask(t)]
-                direct = [t for t in terms if not (strip_all(t).get("k") == "Ref")]
-                for dterm in direct:
-                    # only tests of image bytes / of values read from the image - not of object state, loop counters, sizes
-                    t0 = ctext(fn, dterm).replace(" ", "")
-                    if re.search(r"\((param#\d+\[[^\]]*\]|read#\d+<unsignedchar>|local<unsignedchar>#\d+)&\d+\)", t0):
-                        cands.append({"init": dterm, "loc": n.get("loc"), "n": None, "t": "bool", "inline": True})
+            # a flag tested in place (`if (bytes[FLAGS] & MASK)`, `x != bool(flags & MASK)`) is the same decoding as one that is given
+            # a name first: every bit test of an image byte with a constant mask is a row
+            if n.get("k") == "Bin" and n.get("op") == "&" and id(n) not in in_decl and is_mask(n):
+                t0 = ctext(fn, n).replace(" ", "")
+                if re.search(r"^\((param#\d+\[[^\]]*\]|read#\d+<unsignedchar>|local<unsignedchar>#\d+)&\d+\)$", t0) and t0 not in seen_inline:
+                    seen_inline.add(t0)
+                    cands.append({"init": n, "loc": n.get("loc"), "n": None, "t": "bool", "inline": True})
         walk(fn["body"], v)
+        cands_decl = list(cands)
+        in_decl = set()
+        for var in cands_decl:
+            walk(var["init"], lambda x: in_decl.add(id(x)))
         walk(fn["body"], vc)
         cands.sort(key=_loc_key)
         kind = field_validation._kind(fn) or ""
-        for i, var in enumerate(cands):
+        seen_terms = set()
+        i = 0
+        for var in cands:
             terms = sorted(set(ctext(fn, t) for t in _split_nodes(var["init"])))
+            if tuple(terms) in seen_terms:
+                continue       # one row per distinct decoding, however often it is spelled out
+            seen_terms.add(tuple(terms))
             out.append(("%s::%s(%s):flag#%d" % (rect, fn["name"], kind, i), terms, var, fn))
+            i += 1
     return out
 
 
